@@ -178,6 +178,11 @@ func decodeBatchRecords(batch []byte, topic string, partition int32) ([]Record, 
 	}
 
 	recordsData := batch[recordBatchHeaderLen:]
+	// Every record takes at least one byte: a count beyond that is a crafted
+	// header, not something to size an allocation by.
+	if int64(recordCount) > int64(len(recordsData)) {
+		return nil, fmt.Errorf("record count %d exceeds batch payload of %d bytes", recordCount, len(recordsData))
+	}
 	reader := bytes.NewReader(recordsData)
 	records := make([]Record, 0, recordCount)
 	for i := int32(0); i < recordCount; i++ {
@@ -195,8 +200,8 @@ func decodeRecord(reader *bytes.Reader, baseOffset int64, baseTimestamp int64, t
 	if err != nil {
 		return Record{}, err
 	}
-	if length < 0 {
-		return Record{}, fmt.Errorf("invalid record length")
+	if length < 0 || length > int64(reader.Len()) {
+		return Record{}, fmt.Errorf("invalid record length %d with %d bytes left", length, reader.Len())
 	}
 
 	recordData := make([]byte, length)
@@ -242,6 +247,9 @@ func decodeRecord(reader *bytes.Reader, baseOffset int64, baseTimestamp int64, t
 		return Record{}, err
 	}
 
+	if headerCount < 0 || headerCount > int64(buf.Len()) {
+		return Record{}, fmt.Errorf("invalid header count %d with %d bytes left", headerCount, buf.Len())
+	}
 	headers := make([]Header, 0, headerCount)
 	for i := int64(0); i < headerCount; i++ {
 		keyLen, err := readVarint(buf)
@@ -280,6 +288,9 @@ func readNullableBytes(reader *bytes.Reader, length int64) ([]byte, error) {
 	}
 	if length == 0 {
 		return []byte{}, nil
+	}
+	if length > int64(reader.Len()) {
+		return nil, fmt.Errorf("field length %d exceeds the %d bytes left", length, reader.Len())
 	}
 	out := make([]byte, length)
 	if _, err := io.ReadFull(reader, out); err != nil {
@@ -345,6 +356,9 @@ func parseIndex(data []byte) ([]IndexEntry, error) {
 	var reserved uint16
 	if err := binary.Read(reader, binary.BigEndian, &reserved); err != nil {
 		return nil, err
+	}
+	if count < 0 || int64(count)*12 > int64(reader.Len()) {
+		return nil, fmt.Errorf("index declares %d entries with %d bytes left", count, reader.Len())
 	}
 	entries := make([]IndexEntry, count)
 	for i := int32(0); i < count; i++ {
